@@ -57,6 +57,16 @@ CHECKS["C13"] = dict(
    note=COMMON_NOTE + "File system, search path, isort stdlib classification are parameters/oracles. Path components are assumed dot-free; the (base,target,level) memo of derive_absolute_module_name is cleared per case (a.py beside a/__init__.py is not modelled). The 'diagnosed' clause rests on find_module_name_and_spec answering None for ''/'.x' (checked per case on rattr) - the diagnostic call in RootContextBuilder is covered by C07's runs, not by this model.",
    design_ref="DESIGN.md section 6 C13, 11")
 
+CHECKS["C10"] = dict(
+   technique="Coq proof by structural induction over the expression tree (custom tree induction for nested getattr chains); refutation witnesses; exhaustive-to-depth differential correspondence of both namers",
+   text=("Theorems C10_safe_naming_follows_readme, C10_namers_agree (for EVERY expression tree of any depth whose spine does not pass through an attribute-access builtin, "
+         "both namers return exactly the README spelling and base and do not raise), C10_literal_getattr_chains (any nesting depth), C10_refuted / C10_refuted_agreement "
+         "(kernel-checked witnesses for the getattr-spine cases; known finding KF_C10_1). The model (coq/model/Naming.v) is compared with rattr.ast.util.names_of (safe/unsafe x unravel) "
+         "and get_basename_fullname_pair on all trees to a wrap depth over one atom per expression class plus random deeper trees; the Coq checker check_C10 judges rattr's answers; "
+         "the generated tables (AstNodeWithName, AstLiterals, AstComprehensions, attr-access builtins, '@') are pinned by proofs/TablesOk.v."),
+   note=COMMON_NOTE + "harness/emit.py (Python ast -> Coq terms) is trusted for coverage only: a wrong emission shows up as a divergence.",
+   design_ref="DESIGN.md section 6 C10, 11")
+
 NOT_YET = {}
 
 def main():
